@@ -30,7 +30,7 @@ def observe_referents(w: progs.World, problems: List[str], records: List[dict]):
     ids = {id(m): k for k, m in w.mgrs.items()}
     with warnings.catch_warnings(record=True) as caught, contextlib.redirect_stderr(io.StringIO()):
         warnings.simplefilter("always")
-        ctxs = ll.contexts_active_in_frame(w.frame, w.target)
+        ctxs = ll.contexts_active_in_frame(w.frame, getattr(w, "origin", w.target))
     got = [(ids.get(id(c.obj), None if c.obj is None else "?"), c.is_async, c.is_exiting) for c in ctxs]
     records.append({"lasti": w.frame.f_lasti, "got": got})
     judge_referents(w, got, truth, entering, problems, "")
@@ -101,12 +101,14 @@ class C20(PropCheck):
         n = 150 if tier == "quick" else 2000
         dmax = 3 if tier == "quick" else 4
         for _ in range(n):
-            out.append({"k": "referents", "kind": rng.choice(["gen", "coro", "agen"]), "pseed": rng.randrange(1 << 30),
+            out.append({"k": "referents", "kind": rng.choice(["gen", "coro", "agen", "agen_in_coro"]), "pseed": rng.randrange(1 << 30),
                         "depth": rng.randint(1, dmax), "choices": [rng.randrange(6) for _ in range(rng.randint(0, 14))]})
         for ci, (kind, _src) in enumerate(progs.CORPUS):
             if kind != "sync":
                 for ch in ([], [1], [0, 1], [1, 0, 1], [0, 0, 1, 1], [1, 1, 0, 1, 0]):
                     out.append({"k": "referents", "kind": kind, "corpus": ci, "pseed": 0, "depth": 0, "choices": ch})
+                    if kind == "agen":
+                        out.append({"k": "referents", "kind": "agen_in_coro", "corpus": ci, "pseed": 0, "depth": 0, "choices": ch})
         for _ in range(12 if tier == "quick" else 80):
             out.append({"k": "faults", "kind": rng.choice(["gen", "coro"]), "pseed": rng.randrange(1 << 30), "depth": 2,
                         "choices": [rng.randrange(6) for _ in range(8)]})
@@ -125,7 +127,8 @@ class C20(PropCheck):
         if case["k"] == "referents":
             ll.set_trickery_enabled(False)
             try:
-                src = progs.CORPUS[case["corpus"]][1] if "corpus" in case else progs.gen_program(random.Random(case["pseed"]), case["kind"], case["depth"])
+                gk = "agen" if case["kind"] == "agen_in_coro" else case["kind"]
+                src = progs.CORPUS[case["corpus"]][1] if "corpus" in case else progs.gen_program(random.Random(case["pseed"]), gk, case["depth"])
                 recs: List[dict] = []
                 progs.run_program(src, case["kind"], case["choices"],
                                   lambda w, label: observe_referents(w, self._probs, recs) if label == "suspended" else None)
